@@ -80,6 +80,7 @@ inductive Field where
   | list (vs : List PyV)           -- a Python list of model values
   | dict (kvs : List (PyV × PyV))  -- a dict: insertion-ordered association list
   | lock (held : Bool)             -- a threading.Lock
+  | set (vs : List PyV)            -- a set of hashable model values (no duplicates; kept in insertion order)
   deriving DecidableEq, Repr, Inhabited
 
 inductive Val where
@@ -95,6 +96,8 @@ inductive Val where
   | lock (held : Bool)             -- a threading.Lock
   | caught (e : PyErr)             -- the exception object bound by `except T as name`
   | obj (fields : List (String × Field))   -- `self`: an object with attributes
+  | set (vs : List PyV)            -- a Python set of hashable model values
+  | bound (o m : String)           -- the bound method `o.m` of the object that the local variable `o` holds
   deriving DecidableEq, Repr, Inhabited
 
 def Field.toVal : Field → Val
@@ -102,12 +105,14 @@ def Field.toVal : Field → Val
   | .list vs => .list vs
   | .dict kvs => .dict kvs
   | .lock h => .lock h
+  | .set vs => .set vs
 
 def Val.toField : Val → Option Field
   | .py v => some (.py v)
   | .list vs => some (.list vs)
   | .dict kvs => some (.dict kvs)
   | .lock h => some (.lock h)
+  | .set vs => some (.set vs)
   | _ => none
 
 /-- Objects that can change after they were made (so that two names for one of them matter). -/
@@ -116,6 +121,7 @@ def Val.mutable : Val → Bool
   | .dict _ => true
   | .lock _ => true
   | .obj _ => true
+  | .set _ => true
   | _ => false
 
 def unsupported (what : String) : PyErr := .other ("unsupported:" ++ what)
@@ -126,6 +132,7 @@ def Val.truthy : Val → Bool
   | .tuple vs => !vs.isEmpty
   | .list vs => !vs.isEmpty
   | .dict kvs => !kvs.isEmpty
+  | .set vs => !vs.isEmpty
   | _ => true
 
 /-- `a == b` on model values. -/
@@ -160,6 +167,8 @@ def pyEq (x y : Val) : Except PyErr Bool :=
   | .lock _ => (match y with | .lock _ => .error (unsupported "==") | _ => .ok false)
   | .caught _ => (match y with | .caught _ => .error (unsupported "==") | _ => .ok false)
   | .obj _ => (match y with | .obj _ => .error (unsupported "==") | _ => .ok false)
+  | .set _ => (match y with | .set _ => .error (unsupported "==") | _ => .ok false)
+  | .bound _ _ => (match y with | .bound _ _ => .error (unsupported "==") | _ => .ok false)
 
 /-- Objects of which there is exactly one: `is` is then structural equality of the representation. -/
 def Val.unique : Val → Bool
@@ -200,7 +209,18 @@ def hashable : PyV → Bool
   | .bool _ => true
   | _ => false
 
-/-- `x in c`: `c` a tuple or list (any element equal to `x`), or a dict (any key equal to the hashable `x`). -/
+/-- membership in a set (of hashable values): some member equal to `v` -/
+def sMem (vs : List PyV) (v : PyV) : Bool := vs.any (fun e => pyEqV v e)
+
+/-- `s.add(v)` -/
+def sAdd (vs : List PyV) (v : PyV) : List PyV := if sMem vs v then vs else vs ++ [v]
+
+/-- `s.remove(v)`: without the member equal to `v` (there is at most one in a set); `none` when there is none (`KeyError`). -/
+def sRemove (v : PyV) : List PyV → Option (List PyV)
+  | [] => none
+  | a :: r => if pyEqV v a then some r else (match sRemove v r with | some r' => some (a :: r') | none => none)
+
+/-- `x in c`: `c` a tuple or list (any element equal to `x`), or a dict / set (any key / member equal to the hashable `x`). -/
 def pyIn (x c : Val) : Except PyErr Bool :=
   match c with
   | .tuple vs => (match x with
@@ -213,6 +233,9 @@ def pyIn (x c : Val) : Except PyErr Bool :=
       | _ => .error (unsupported "in"))
   | .dict kvs => (match x with
       | .py a => if hashable a then .ok (kvs.any (fun e => pyEqV a e.1)) else .error (unsupported "in")
+      | _ => .error (unsupported "in"))
+  | .set vs => (match x with
+      | .py a => if hashable a then .ok (sMem vs a) else .error (unsupported "in")
       | _ => .error (unsupported "in"))
   | _ => .error (unsupported "in")
 
@@ -273,6 +296,8 @@ def getAttr (x : Val) (a : String) : Except PyErr Val :=
     | .lock _ => .ok (.cls "lock")
     | .caught e => .ok (.excType (errName e))
     | .obj _ => .ok (.cls "object")
+    | .set _ => .ok (.cls "set")
+    | .bound _ _ => .ok (.cls "method")
   else
     match x with
     | .obj fs => (match fs.lookup a with | some fv => .ok fv.toVal | none => .error (.other "AttributeError"))
@@ -281,6 +306,10 @@ def getAttr (x : Val) (a : String) : Except PyErr Val :=
         match x with
         | .elem e => .ok (.py (.str e.tag.toList))
         | _ => .error (unsupported "attribute tagName")
+      else if a = "uid" then
+        match x with
+        | .py (.ancestor u) => .ok (.py (.int u))
+        | _ => .error (unsupported "attribute uid")
       else .error (unsupported ("attribute " ++ a))
 
 /-- `s.replace(a, b)` for a non-empty `a` (left to right, non-overlapping), with fuel = length of `s`. -/
@@ -389,7 +418,14 @@ def callMethod (x : Val) (m : String) (args : List Val) : Except PyErr Val :=
        | [.py k, .py d] => if hashable k then .ok (.py ((dGet kvs k).getD d)) else .error (unsupported "dict key")
        | _ => .error (unsupported "dict.get"))
     else .error (unsupported ("method " ++ m))
+  | .py (.ancestor u) =>
+    if m = "getUid" then
+      (match args with
+       | [] => .ok (.py (.int u))
+       | _ => .error .typeError)
+    else .error (.other "AttributeError")
   | .list _ => .error (unsupported ("method " ++ m ++ " of a list in an expression"))
+  | .set _ => .error (unsupported ("method " ++ m ++ " of a set in an expression"))
   | .lock _ => .error (unsupported ("method " ++ m ++ " of a lock in an expression"))
   | .obj _ => .error (unsupported ("method " ++ m ++ " of an object"))
   | _ => .error (.other "AttributeError")
@@ -421,7 +457,36 @@ def mutCall (fv : Field) (m : String) (args : List Val) : Except PyErr Field :=
        | [] => if h then .ok (.lock false) else .error (.other "RuntimeError")
        | _ => .error .typeError)
     else .error (unsupported ("statement method " ++ m))
+  | .set vs =>
+    if m = "add" then
+      (match args with
+       | [.py v] => if hashable v then .ok (.set (sAdd vs v)) else .error (unsupported "set member")
+       | [_] => .error (unsupported "set of objects")
+       | _ => .error .typeError)
+    else if m = "remove" then
+      (match args with
+       | [.py v] =>
+         if hashable v then (match sRemove v vs with | some vs' => .ok (.set vs') | none => .error .keyError)
+         else .error (unsupported "set member")
+       | [_] => .error (unsupported "set of objects")
+       | _ => .error .typeError)
+    else .error (unsupported ("statement method " ++ m))
   | _ => .error (unsupported ("statement method " ++ m))
+
+/-- The name under which an object of a class derived from `list` keeps the list it IS (no Python attribute has that name). -/
+def listPart : String := "[list]"
+
+/-- `list.m(o, args)` as a statement, for an object `o` of a class derived from `list`: the new content of its list part
+(`cur`: the present one).  `list.__init__(o)` makes it the empty list; `append` / `remove` are the list's own. -/
+def baseCall (cur : Option Field) (m : String) (args : List Val) : Except PyErr Field :=
+  if m = "__init__" then
+    (match args with
+     | [] => .ok (.list [])
+     | _ => .error (unsupported "list.__init__ with arguments"))
+  else
+    match cur with
+    | some (.list vs) => if m = "append" || m = "remove" then mutCall (.list vs) m args else .error (unsupported ("list." ++ m))
+    | _ => .error (unsupported "not a list object")
 
 inductive BinOp where
   | add | sub | mul
@@ -475,6 +540,15 @@ def pySlice (front : Bool) (x n : Val) : Except PyErr Val :=
      | _ => .error (unsupported "slice"))
   | _ => .error (unsupported "slice bound")
 
+/-- `x[:]`: a new list with the items of a list, or of the list that an object of a class derived from `list` is. -/
+def pySliceAll (x : Val) : Except PyErr Val :=
+  match x with
+  | .list vs => .ok (.list vs)
+  | .tuple vs => .ok (.tuple vs)
+  | .py (.str s) => .ok (.py (.str s))
+  | .obj fs => (match fs.lookup listPart with | some (.list vs) => .ok (.list vs) | _ => .error (unsupported "slice"))
+  | _ => .error (unsupported "slice")
+
 /-- `len(x)` -/
 def pyLen : Val → Except PyErr Val
   | .py (.str s) => .ok (.py (.int s.length))
@@ -482,6 +556,7 @@ def pyLen : Val → Except PyErr Val
   | .list vs => .ok (.py (.int vs.length))
   | .tuple vs => .ok (.py (.int vs.length))
   | .dict kvs => .ok (.py (.int kvs.length))
+  | .set vs => .ok (.py (.int vs.length))
   | .py .none => .error .typeError
   | .py (.int _) => .error .typeError
   | .py (.bool _) => .error .typeError
@@ -541,6 +616,7 @@ def builtin (parseInt : Str → Except PyErr Int) (f : String) (args : List Val)
     | [.py (.str s)] => .ok (.list (s.map (fun c => .str [c])))
     | [.list vs] => .ok (.list vs)
     | [.tuple vs] => .ok (.list vs)
+    | [.obj fs] => (match fs.lookup listPart with | some (.list vs) => .ok (.list vs) | _ => .error (unsupported "list"))
     | _ => .error (unsupported "list")
   else .error (.other "NameError")
 
@@ -570,6 +646,10 @@ inductive Expr where
   | newList                                             -- []
   | newDict                                             -- {}
   | newLock                                             -- threading.Lock()
+  | newSet                                              -- set()
+  | sliceAll (e : Expr)                                 -- e[:]
+  | construct (cls : String) (args : List Expr)         -- C(args) for the class C whose methods are in `Ctx.meths`
+  | boundMeth (o m : String)                            -- o.m as a value, o a local variable, m a method of the class
   deriving Repr, Inhabited
 
 /-- Does the expression CREATE the list it evaluates to (so that no other name reaches the same object)? -/
@@ -579,6 +659,9 @@ def Expr.makesNew : Expr → Bool
   | .newList => true
   | .newDict => true
   | .newLock => true
+  | .newSet => true
+  | .sliceAll _ => true
+  | .construct _ _ => true          -- (a constructor that kept one of its mutable arguments is refused: `callMeth`)
   | .call f _ => f = "list"         -- the builtin `list(x)` (the guard `aliasOK` checks that no function of the module hides it)
   | .meth _ m _ => m = "split"      -- `text.split(sep)` (a method of `self` never returns a mutable object: `eval`)
   | _ => false
@@ -607,6 +690,7 @@ inductive Stmt where
   | delItem (o f : String) (k : Expr)                   -- del o.f[k]
   | varCall (x m : String) (args : List Expr)           -- x.m(args) as a statement, x a local variable (a list)
   | setItemVar (x : String) (k v : Expr)                -- x[k] = v, x a local variable (a dict)
+  | baseCall (o m : String) (args : List Expr)          -- list.m(o, args) as a statement (`o` is `self`, its class derives from list)
 inductive Handler where
   | mk (type : Option String) (body : List Stmt)        -- `except:` (none) / `except T:` (some T)
   | mkAs (type : String) (name : String) (body : List Stmt)   -- `except T as name:`
@@ -667,6 +751,10 @@ def iterItems : Val → Option (List Val)
   | .dict kvs => some (kvs.map (fun p => .py p.1))
   | _ => none
 
+/-- What a method of the class does, given the fields of the receiver and the arguments: the fields afterwards (`none`: the
+receiver's variable no longer holds an object) and the result of the call. -/
+abbrev MethSem := List (String × Field) → List Val → Option (List (String × Field)) × Except PyErr Val
+
 structure Ctx where
   parseInt : Str → Except PyErr Int
   /-- the functions of the module that are visible: positional arguments, keyword arguments -/
@@ -677,6 +765,10 @@ structure Ctx where
   globals : String → Option Val := fun _ => none
   /-- methods of `self` that are not dumped (static methods around primitives), by name -/
   selfMeth : String → Option (List Val → Except PyErr Val) := fun _ => none
+  /-- the class whose dumped methods are in `meths` (its name is its constructor) -/
+  cls : String := ""
+  /-- the dumped methods of that class that are visible (`methIn`: those EARLIER in the dependency order), by name -/
+  meths : String → Option MethSem := fun _ => none
 
 /-- `x = v` in an association list (the local variables; the fields of an object): an existing binding is replaced where
 it is, a new one is added at the end. -/
@@ -706,6 +798,57 @@ def toTuple : List Val → Except PyErr Val
   | vs => if vs.all (fun v => match v with | .py _ => true | _ => false)
           then .ok (.tuple (vs.filterMap (fun v => match v with | .py p => some p | _ => none)))
           else .error (unsupported "tuple of objects")
+
+def Val.isBound : Val → Bool
+  | .bound _ _ => true
+  | _ => false
+
+/-- `C(args)`: a new object (no fields yet) on which the dumped `__init__` runs; `__init__` must return `None`. -/
+def construct (cx : Ctx) (c : String) (vs : List Val) : Except PyErr Val :=
+  if c = cx.cls then
+    if vs.any Val.isBound then .error (unsupported "a bound method as an argument") else
+    match cx.meths "__init__" with
+    | some g =>
+      (match g [] vs with
+       | (some fs, .ok (.py .none)) => .ok (.obj fs)
+       | (some _, .ok _) => .error .typeError
+       | (none, .ok _) => .error (unsupported "constructor")
+       | (_, .error e) => .error e)
+    | none => .error (unsupported "constructor")
+  else .error (.other "NameError")
+
+/-- Calling the bound method `o.m` in an EXPRESSION: the method runs on the object the variable `o` holds NOW; it must leave
+the object as it is (a change would be lost) and must not return a mutable object (it could be a part of the receiver). -/
+def callBound (cx : Ctx) (env : Env) (o m : String) (vs : List Val) : Except PyErr Val :=
+  match env.lookup o with
+  | some (.obj fs) =>
+    if vs.any Val.isBound then .error (unsupported "a bound method as an argument") else
+    (match cx.meths m with
+     | some g =>
+       (match g fs vs with
+        | (some fs', r) =>
+          if fs' = fs then
+            (match r with
+             | .ok v => if v.mutable then .error (unsupported "a method returning a mutable object in an expression") else .ok v
+             | .error e => .error e)
+          else .error (unsupported "a method called in an expression changed its object")
+        | (none, _) => .error (unsupported "a method lost its object"))
+     | none => .error (.other "AttributeError"))
+  | _ => .error (unsupported "bound method of something else than an object")
+
+/-- `x.m(args)` as a STATEMENT, `x` holding an object with the fields `fs`: the dumped method `m` runs on it and the variable
+holds what the method left (also when the method raises: what it did before is done). -/
+def objCall (cx : Ctx) (env : Env) (x : String) (fs : List (String × Field)) (m : String) (vs : List Val) : Env × Res :=
+  if (fs.lookup m).isSome then (env, .exc (unsupported "an attribute that hides a method"))
+  else if vs.any Val.isBound then (env, .exc (unsupported "a bound method as an argument"))
+  else
+    match cx.meths m with
+    | none => (env, .exc (.other "AttributeError"))
+    | some g =>
+      (match g fs vs with
+       | (some fs', .ok _) => (assocSet env x (.obj fs'), .next)
+       | (some fs', .error e) => (assocSet env x (.obj fs'), .exc e)
+       | (none, _) => (env, .abort "a method lost its object"))
 
 mutual
 def eval (cx : Ctx) (env : Env) : Expr → Except PyErr Val
@@ -740,7 +883,10 @@ def eval (cx : Ctx) (env : Env) : Expr → Except PyErr Val
   | .callv f args =>
     (match eval cx env f with
      | .error e => .error e
-     | .ok fv => (match evalList cx env args with | .error e => .error e | .ok vs => callValue fv vs))
+     | .ok fv =>
+       (match evalList cx env args with
+        | .error e => .error e
+        | .ok vs => (match fv with | .bound o m => callBound cx env o m vs | _ => callValue fv vs)))
   | .attr e a => (match eval cx env e with | .error err => .error err | .ok x => getAttr x a)
   | .meth e m args =>
     (match eval cx env e with
@@ -778,6 +924,15 @@ def eval (cx : Ctx) (env : Env) : Expr → Except PyErr Val
   | .newList => .ok (.list [])
   | .newDict => .ok (.dict [])
   | .newLock => .ok (.lock false)
+  | .newSet => .ok (.set [])
+  | .sliceAll e => (match eval cx env e with | .error err => .error err | .ok x => pySliceAll x)
+  | .construct c args => (match evalList cx env args with | .error err => .error err | .ok vs => construct cx c vs)
+  | .boundMeth o m =>
+    (match env.lookup o with
+     | some (.obj fs) =>
+       if (cx.meths m).isSome && (fs.lookup m).isNone then .ok (.bound o m) else .error (.other "AttributeError")
+     | some _ => .error (unsupported "bound method of something else than an object")
+     | none => .error (.other "UnboundLocalError"))
 def evalList (cx : Ctx) (env : Env) : List Expr → Except PyErr (List Val)
   | [] => .ok []
   | e :: es =>
@@ -892,6 +1047,7 @@ def execS (cx : Ctx) (env : Env) : Stmt → Env × Res
      | .ok vs =>
        (match env.lookup x with
         | none => (env, .exc (.other "UnboundLocalError"))
+        | some (.obj fs) => objCall cx env x fs m vs
         | some xv =>
           (match xv.toField with
            | none => (env, .exc (unsupported "statement method of an object"))
@@ -915,6 +1071,17 @@ def execS (cx : Ctx) (env : Env) : Stmt → Env × Res
                 else (env, .exc (unsupported "dict key"))
               | _, _ => (env, .exc (unsupported "dict of objects")))
            | some _ => (env, .exc (unsupported "item assignment")))))
+  | .baseCall o m args =>
+    (match evalList cx env args with
+     | .error err => (env, .exc err)
+     | .ok vs =>
+       (match env.lookup o with
+        | some (.obj fs) =>
+          (match baseCall (fs.lookup listPart) m vs with
+           | .error err => (env, .exc err)
+           | .ok fv' => ((putField env o listPart fv').1, .next))
+        | some _ => (env, .exc (unsupported "list method of something else than self"))
+        | none => (env, .exc (.other "UnboundLocalError"))))
 def execL (cx : Ctx) (env : Env) : List Stmt → Env × Res
   | [] => (env, .next)
   | s :: ss =>
@@ -989,6 +1156,33 @@ def runMeth (cx : Ctx) (f : Fun) (self : List (String × Field)) (args : List Va
       | (s, _) :: _ => (match r.1.lookup s with | some (.obj fs) => some fs | _ => none)
       | [] => none),
      resultOf r.2)
+
+/-- Do the parameters that received a mutable object still hold it, unchanged, in the environment `env` the call ended
+with?  (Arguments are copied in: a callee that changed one would not be seen by the caller.) -/
+def argsKept : List (String × Option Expr) → List Val → Env → Bool
+  | (x, _) :: ps, v :: vs, env => (!v.mutable || decide (env.lookup x = some v)) && argsKept ps vs env
+  | _, _, _ => true
+
+/-- What the method table holds: `runMeth`, refused when the method changed (or rebound) a mutable argument, or returns a
+bound method (it names a variable of the callee). -/
+def callMeth (cx : Ctx) (f : Fun) (self : List (String × Field)) (args : List Val) :
+    Option (List (String × Field)) × Except PyErr Val :=
+  match bindArgs cx f.params (.obj self :: args) [] with
+  | some (.ok env) =>
+    if argsKept (f.params.drop 1) args (execL cx env f.body).1 then
+      (match runMeth cx f self args with
+       | (s', .ok v) => if v.isBound then (s', .error (unsupported "a bound method as a result")) else (s', .ok v)
+       | r => r)
+    else ((runMeth cx f self args).1, .error (unsupported "a method changed a mutable argument"))
+  | _ => runMeth cx f self args
+
+/-- The dumped methods of a class given LATEST IN THE DEPENDENCY ORDER FIRST: a method sees the methods before it
+(`base`: everything else the methods run in). -/
+def methIn (base : Ctx) : List Fun → String → Option MethSem
+  | [], _ => none
+  | f :: earlier, name =>
+    if f.name = name then some (callMeth { base with meths := methIn base earlier } f)
+    else methIn base earlier name
 
 /-- Look a function up in a module given LATEST DEFINITION FIRST: its body sees the definitions before it. -/
 def callIn (parseInt : Str → Except PyErr Int) :
